@@ -578,6 +578,85 @@ fn to_bound(b: &Bnd) -> Bound<Vec<u8>> {
 pub fn exec_iter(tx: &mut Tx, case: &IterCase, bytes: Vec<u8>) {
     let n = case.spec.entries.len();
     let Some(reader) = open_reader(tx, bytes) else { return };
+    if case.interleave {
+        type Next = Box<dyn FnMut() -> Result<Option<(Vec<u8>, Vec<u8>)>, grenad::Error>>;
+        fn own(x: Option<(&[u8], &[u8])>) -> Option<(Vec<u8>, Vec<u8>)> {
+            x.map(|(k, v)| (k.to_vec(), v.to_vec()))
+        }
+        for pair in case.queries.chunks(2) {
+            let mut its: Vec<Next> = Vec::new();
+            for q in pair {
+                let r = reader.clone();
+                let (name, made): (&str, Option<Next>) = match q {
+                    Query::Prefix { prefix, rev: false } => (
+                        "into_prefix_iter",
+                        tx.call("into_prefix_iter", || match r.into_prefix_iter(prefix.0.clone()) {
+                            Ok(mut it) => Ok((Box::new(move || it.next().map(own)) as Next, Res::Unit)),
+                            Err(e) => Err(desc_err(&e)),
+                        }),
+                    ),
+                    Query::Prefix { prefix, rev: true } => (
+                        "into_rev_prefix_iter",
+                        tx.call("into_rev_prefix_iter", || match r.into_rev_prefix_iter(prefix.0.clone()) {
+                            Ok(mut it) => Ok((Box::new(move || it.next().map(own)) as Next, Res::Unit)),
+                            Err(e) => Err(desc_err(&e)),
+                        }),
+                    ),
+                    Query::Range { start, end, rev: false, .. } => (
+                        "into_range_iter",
+                        tx.call("into_range_iter", || match r.into_range_iter((to_bound(start), to_bound(end))) {
+                            Ok(mut it) => Ok((Box::new(move || it.next().map(own)) as Next, Res::Unit)),
+                            Err(e) => Err(desc_err(&e)),
+                        }),
+                    ),
+                    Query::Range { start, end, rev: true, .. } => (
+                        "into_rev_range_iter",
+                        tx.call("into_rev_range_iter", || match r.into_rev_range_iter((to_bound(start), to_bound(end))) {
+                            Ok(mut it) => Ok((Box::new(move || it.next().map(own)) as Next, Res::Unit)),
+                            Err(e) => Err(desc_err(&e)),
+                        }),
+                    ),
+                };
+                let _ = name;
+                match made {
+                    Some(it) => its.push(it),
+                    None => return,
+                }
+            }
+            let mut done = vec![false; its.len()];
+            let mut yielded = 0usize;
+            while done.iter().any(|d| !*d) {
+                for j in 0..its.len() {
+                    if done[j] {
+                        continue;
+                    }
+                    let it = &mut its[j];
+                    let mut got_none = false;
+                    let r = tx.call("iter.next", || match it() {
+                        Ok(x) => {
+                            got_none = x.is_none();
+                            Ok(((), match x {
+                                Some((k, v)) => Res::Entry(k, v),
+                                None => Res::None,
+                            }))
+                        }
+                        Err(e) => Err(desc_err(&e)),
+                    });
+                    if r.is_none() {
+                        return;
+                    }
+                    if got_none {
+                        done[j] = true;
+                    }
+                    yielded += 1;
+                    if yielded > 2 * n + 4 {
+                        return;
+                    }
+                }
+            }
+        }
+        return;
+    }
     for q in &case.queries {
         let r = reader.clone();
         macro_rules! drain {
@@ -598,7 +677,14 @@ pub fn exec_iter(tx: &mut Tx, case: &IterCase, bytes: Vec<u8>) {
                         Err(e) => Err(desc_err(&e)),
                     });
                     if r.is_none() {
-                        return;
+                        if tx.stop {
+                            return;
+                        }
+                        yielded += 1;
+                        if yielded > n + 1 {
+                            break;
+                        }
+                        continue;
                     }
                     if got_none {
                         break;
@@ -720,7 +806,15 @@ pub fn exec_merge(tx: &mut Tx, case: &MergeCase, files: &[Vec<u8>]) {
                 Err(e) => Err(desc_err(&e)),
             });
             if r.is_none() {
-                return;
+                // a caller may keep calling `next` after an Err (transient-fault families)
+                if tx.stop {
+                    return;
+                }
+                yielded += 1;
+                if yielded > total + 1 {
+                    break;
+                }
+                continue;
             }
             if got_none {
                 break;
